@@ -23,7 +23,7 @@ LEVEL_TEXT = ("c04_set_then_get_partial, c04_other_keys_untouched, c04_found_own
               "a set followed by a get before expiry returns exactly those bytes and flags under that key, stores never change other "
               "keys, and a retrieval lists each present requested key with its own item; c04_reply_roundtrip: for ANY data bytes "
               "(CR LF, END, VALUE lines, any size) and any number of items the strict reply reader recovers exactly the items. "
-              "c04_e2e_get/gets/get_many: on a connected Client model with nothing pending, a fault-free transport (any recv chunking) "
+              "c04_e2e_get/gets/get_many: on a Client model that is connected with nothing pending or closed (it then connects first; parameter fr of the theorems), a fault-free transport (any recv chunking) "
               "and Spec/Server as the peer, for every server state, configuration (prefix, encoding, serializer) and key, the call "
               "returns the deserialised live item under the caller's own key object (the default / an absent entry otherwise), the "
               "server state is unchanged and nothing is left unread; for get_many with any number of keys whose wire keys differ. "
@@ -34,7 +34,7 @@ LEVEL_TEXT = ("c04_set_then_get_partial, c04_other_keys_untouched, c04_found_own
               "the codec, the pickle protocol and min_compress_len are parameters of the configuration). c04_e2e_set_keeps_other: a set "
               "does not change what a get of another key returns. c04_server_invariant: the side condition (non-negative flags and cas "
               "versions) holds in every reachable server state. PooledClient and HashClient return what Client returns on the connection "
-              "they use (C16); calls that connect first: C01's c01_ready theorems; a caller-supplied flags argument replaces the "
+              "they use (C16); a caller-supplied flags argument replaces the "
               "serializer's flags and is outside the property.")
 LEVEL_NOTE = ("Trusted: Coq kernel; Spec/Server.v, Spec/Reply.v as readings of protocol.txt (compared with harness/refserver.py); the "
               "hand model's correspondence with base.py and serde.py; pickle and the compression codecs are oracles (hypotheses of the "
